@@ -25,7 +25,7 @@ More == l <= Len(Rec)
 
 NCodeFrames(m) == Cardinality({j \in 1..Len(m.fr) : m.fr[j].fk = "code"})
 
-LogTag(v) == v.t
+LogTag(v) == IF v.t = "con" THEN "constraint" ELSE v.t
 TopMatches(v, t) ==
   /\ LogTag(v) = t.t
   /\ CASE t.t = "int" -> v.i = t.i
